@@ -29,6 +29,9 @@ import world
 THEOREMS = [
     "C17_has_impl_sound",
     "C17_has_impl_sound_repaired",
+    "C17_has_impl_sound_repaired_facade",
+    "C17_facade_repair_changes_only_known",
+    "C17_has_impl_sound_refuted_display_constrained_current",
     "C17_has_impl_sound_refuted_display_constrained",
     "C17_has_impl_sound_refuted_nonzero_default",
     "C17_known_display_constrained_fails",
@@ -418,8 +421,10 @@ def crates_in_tokens(tokens):
 # the check
 # --------------------------------------------------------------------------
 def observe_cfg(ctx, cases, gens):
-    """Which of the two modelled repairs does the working tree have?"""
-    fix_display = fix_nonzero = None
+    """Which of the modelled repairs does the working tree have?
+    (display impl emitted for String-constrained newtypes [C17-1], has_impl(NonZero, Default)
+    false [C17-2 = 2273521], facade answers false for (String-constrained newtype, Display) [C17-3])"""
+    fix_display = fix_nonzero = fix_facade = None
     for c, g in zip(cases, gens):
         ex = c.get("expect", {})
         if not isinstance(g.get("types"), list):
@@ -430,12 +435,13 @@ def observe_cfg(ctx, cases, gens):
                 e = ent(g["dump"], t["id"])
                 if is_cstring(e):
                     fix_display = any(nows(x) == "::std::fmt::Display" for x in it.get(e["name"], ()))
+                    fix_facade = (t["has_impl"]["Display"] is False) and not fix_display
         if ex.get("probe") == "F2":
             for t in g["types"]:
                 e = ent(g["dump"], t["id"])
                 if e["kind"] == "integer" and e["name"].startswith(NONZERO):
                     fix_nonzero = (t["has_impl"]["Default"] is False)
-    return fix_display, fix_nonzero
+    return fix_display, fix_nonzero, fix_facade
 
 
 def check_facts(ctx, c, g):
@@ -602,15 +608,19 @@ def run(ctx):
                              "compile_error": sum(1 for s in w.status if s == "compile-error"),
                              "by_origin": {o: sum(1 for c in cases if c["origin"] == o) for o in sorted({c["origin"] for c in cases})}}
 
-    fix_display, fix_nonzero = observe_cfg(ctx, cases, gens)
+    fix_display, fix_nonzero, fix_facade = observe_cfg(ctx, cases, gens)
     ctx.oblige("curated witnesses F1/F2 present in the corpus (the code variant can be observed)",
                fix_display is not None and fix_nonzero is not None, "corpus/C17 probes missing or not generated")
-    cfg = "(mkCfg %s %s)" % (tocoq.cbool(bool(fix_display)), tocoq.cbool(bool(fix_nonzero)))
+    flags = [bool(fix_display), bool(fix_nonzero), bool(fix_facade)]
     if EMU == "model_other_cfg":
-        cfg = "(mkCfg %s %s)" % (tocoq.cbool(not fix_display), tocoq.cbool(not fix_nonzero))
+        flags = [not flags[0], not flags[1], flags[2]]
+    if EMU == "model_facade_flip":
+        flags = [flags[0], flags[1], not flags[2]]
+    cfg = "(mkCfg %s)" % " ".join(tocoq.cbool(b) for b in flags)
     ctx.coverage["observed_code_variant"] = {"display_emitted_for_constrained_string_newtype": fix_display,
-                                             "has_impl_default_false_for_nonzero": fix_nonzero}
-    ctx.log("observed variant: fix_display=%s fix_nonzero=%s" % (fix_display, fix_nonzero))
+                                             "has_impl_default_false_for_nonzero": fix_nonzero,
+                                             "facade_has_impl_display_false_for_constrained_string_newtype": fix_facade}
+    ctx.log("observed variant: fix_display=%s fix_nonzero=%s fix_facade=%s" % (fix_display, fix_nonzero, fix_facade))
 
     findings = {f["class"]: f for f in ctx.findings_for()}
     viol = []          # unlisted violations (dicts)
